@@ -124,6 +124,8 @@ Proof.
     + destruct (s_state s =? 1); inlist45.
     + destruct (close_dead _ _ _ E) as [D _]. exact D.
   - unfold ends2, clean_end; leaf3.
+  - intros H Hb. left. destruct (step_race_dead _ _ _ _ _ H Hb) as [D K]. split; [|exact D].
+    intros e Hin. destruct (K e Hin) as [X|[X|X]]; rewrite X; split; discriminate.
 Qed.
 
 Lemma panicked_false evs : (forall e, In e evs -> evt_ok e) -> panicked evs = false.
@@ -233,9 +235,9 @@ Qed.
    with the default limit and with limit 1 *)
 Definition al35 : list op :=
   [ OHeaders 1 false 0 (-1); OHeaders 1 true 0 (-1); OHeaders 1 true 1 (-1); OHeaders 1 false 1 (-1);
-    OHeaders 3 false 0 (-1); OHeaders 3 false 2 (-1); OHeaders 2 false 0 (-1);
+    OHeaders 3 false 0 (-1); OHeaders 3 false 2 (-1); OHeaders 2 false 0 (-1); OHeaders 1 true 7 (-1); OHeaders 3 false 5 (-1);
     OData 1 1 (-1) false; OData 1 0 (-1) true; OData 0 1 (-1) false;
-    ORst 1 8; ORst 7 8; OFinish 1; OPush 1 ].
+    ORst 1 8; ORst 7 8; OFinish 1; OPush 1; ORace 1 3 8 0 ].
 Definition chk35 (maxs : Z) (ops : list op) : bool :=
   rules_run (if maxs =? 0 then 200 else maxs) (mkR [] 0 false) ops (snd (run_ops (init_conn 0 maxs) ops)).
 Lemma chk35_al35_0 : forallb (chk35 0) (scripts 4 al35) = true.
@@ -254,5 +256,5 @@ Proof.
 Qed.
 
 Lemma scripts_count : Z.of_nat (length (scripts 4 al33)) = 41371 /\ Z.of_nat (length (scripts 4 al33d)) = 30941 /\
-                      Z.of_nat (length (scripts 4 al35)) = 41371.
+                      Z.of_nat (length (scripts 4 al35)) = 88741.
 Proof. vm_compute. repeat split. Qed.
